@@ -40,7 +40,11 @@ type ReqSpec struct {
 	Body   bool   `json:"body"`           // handler writes a body
 	Copy   bool   `json:"copy,omitempty"` // the body is written with io.Copy from a plain io.Reader (may take a ReaderFrom fast path)
 	Panic  string `json:"panic"`          // "" | before | afterheader | afterbody
-	PV     string `json:"pv"`             // panic value kind
+	// Flush: the handler calls W.Flush() ("flush") or W.FlushError() ("flusherr") first of all (after a
+	// "before" panic, before anything else). Only generated with Code == 0, so the status is still set
+	// at most once: flushing an untouched response commits the implicit 200.
+	Flush  string `json:"flush,omitempty"`
+	PV     string `json:"pv"` // panic value kind
 	Remote string `json:"remote,omitempty"`
 }
 
@@ -49,7 +53,11 @@ func (r ReqSpec) uri() string {
 	if r.Match {
 		base = "/h/"
 	}
-	return fmt.Sprintf("%s%d?code=%d&body=%v&copy=%v&panic=%s&pv=%s", base, r.N, r.Code, r.Body, r.Copy, r.Panic, r.PV)
+	u := fmt.Sprintf("%s%d?code=%d&body=%v&copy=%v&panic=%s&pv=%s", base, r.N, r.Code, r.Body, r.Copy, r.Panic, r.PV)
+	if r.Flush != "" {
+		u += "&flush=" + r.Flush
+	}
+	return u
 }
 
 // panicsBeforeWrite: does the handler panic before any status was written?
@@ -66,9 +74,9 @@ func (r ReqSpec) panicsBeforeWrite() bool {
 	case "before":
 		return true
 	case "afterheader":
-		return r.Code == 0
+		return r.Code == 0 && r.Flush == ""
 	default: // afterbody
-		return r.Code == 0 && !r.Body
+		return r.Code == 0 && !r.Body && r.Flush == ""
 	}
 }
 
@@ -148,6 +156,12 @@ func behave(s *httpd.Store) {
 	pw, pv := q.Get("panic"), q.Get("pv")
 	if pw == "before" {
 		panic(panicValue(pv))
+	}
+	switch q.Get("flush") {
+	case "flush":
+		s.W.Flush()
+	case "flusherr":
+		s.W.FlushError()
 	}
 	if code != 0 {
 		s.W.WriteHeader(code)
@@ -730,7 +744,11 @@ func runCase(cs Case, st *stats) (key, expected, observed string) {
 }
 
 func specKey(r ReqSpec) string {
-	return fmt.Sprintf("%s,match=%v,code=%d,body=%v,copy=%v,panic=%s,pv=%s", r.Method, r.Match, r.Code, r.Body, r.Copy, r.Panic, r.PV)
+	fl := ""
+	if r.Flush != "" {
+		fl = "," + r.Flush
+	}
+	return fmt.Sprintf("%s,match=%v,code=%d,body=%v,copy=%v,panic=%s,pv=%s%s", r.Method, r.Match, r.Code, r.Body, r.Copy, r.Panic, r.PV, fl)
 }
 
 func clipS(s string, n int) string {
@@ -747,7 +765,7 @@ type mon struct{}
 func (mon) Name() string { return "relay" }
 
 func (mon) Level(string) (string, string) {
-	return "exploration", "requests whose handler behaviour is encoded in the URI (status 200..599 set once or not at all - every single code in a separate sweep -, body or not, panic before / after header / after body / none, twelve panic value kinds incl. error, wrapped error, errors wrapping / joining / textually equal to http.ErrAbortHandler, typed-nil pointer, panic(nil), []byte; matched and unmatched routes) sent (1) over real loopback HTTP connections to an http.Server running Mux+Relay and (2) through ServeHTTP with a recorder (odd RemoteAddr forms, unknown methods), with 1, 8 and 64 requests in flight, for all three log handlers at thresholds Info, Error and Fatal. Every Write on the log destination is parsed as one record; records are joined with the client's log by request id: exactly one REQ_BEG and REQ_END with the request's method/URI/ip/id, END code == status on the wire, 500 iff panic before any write, one Error record with the panic value iff the handler panicked, no panic escaping Relay. Full behaviour product sequentially + seeded concurrent batches; -race build. distinct_nontrivial = distinct (handler, threshold, path, behaviour) combinations observed"
+	return "exploration", "requests whose handler behaviour is encoded in the URI (status 200..599 set once or not at all - every single code in a separate sweep -, body or not, optionally W.Flush()/FlushError() on the untouched response, panic before / after header / after body / none, twelve panic value kinds incl. error, wrapped error, errors wrapping / joining / textually equal to http.ErrAbortHandler, typed-nil pointer, panic(nil), []byte; matched and unmatched routes) sent (1) over real loopback HTTP connections to an http.Server running Mux+Relay and (2) through ServeHTTP with a recorder (odd RemoteAddr forms, unknown methods), with 1, 8 and 64 requests in flight, for all three log handlers at thresholds Info, Error and Fatal. Every Write on the log destination is parsed as one record; records are joined with the client's log by request id: exactly one REQ_BEG and REQ_END with the request's method/URI/ip/id, END code == status on the wire, 500 iff panic before any write, one Error record with the panic value iff the handler panicked, no panic escaping Relay. Full behaviour product sequentially + seeded concurrent batches; -race build. distinct_nontrivial = distinct (handler, threshold, path, behaviour) combinations observed"
 }
 
 type shardArgs struct {
@@ -796,6 +814,12 @@ func productReqs() []ReqSpec {
 						}
 						n++
 						out = append(out, ReqSpec{N: n, Method: methodsPool[n%len(methodsPool)], Match: match, Code: code, Body: body, Copy: body && n%2 == 0, Panic: pw, PV: pv, Remote: remotes[n%len(remotes)]})
+						if match && code == 0 && (pv == "" || pv == pvKinds[0] || pv == pvKinds[len(pvKinds)-1]) {
+							for _, fl := range []string{"flush", "flusherr"} {
+								n++
+								out = append(out, ReqSpec{N: n, Method: methodsPool[n%len(methodsPool)], Match: true, Body: body, Copy: body && n%2 == 0, Panic: pw, PV: pv, Flush: fl, Remote: remotes[n%len(remotes)]})
+							}
+						}
 					}
 				}
 			}
@@ -812,6 +836,9 @@ func randReqs(r *rand.Rand, n int) []ReqSpec {
 			rq.Code = codes[r.Intn(len(codes))]
 			rq.Body = r.Intn(2) == 0
 			rq.Copy = rq.Body && r.Intn(2) == 0
+			if rq.Code == 0 && r.Intn(3) == 0 {
+				rq.Flush = []string{"flush", "flusherr"}[r.Intn(2)]
+			}
 			if r.Intn(2) == 0 {
 				rq.Panic = panicsWhen[1+r.Intn(3)]
 				rq.PV = pvKinds[r.Intn(len(pvKinds))]
